@@ -60,8 +60,10 @@ fn msg<T, E: std::fmt::Debug>(r: Result<T, E>) -> String {
 fn items(n: u64) -> Vec<(u64, u64)> {
     (1..=n).map(|i| (i, i * 10)).collect()
 }
-/// use the cache a little so that a broken construction shows
+thread_local! { static ORDER: std::cell::RefCell<(Vec<u64>, i64)> = const { std::cell::RefCell::new((Vec::new(), -1)) }; }
+/// record the order the cache was built in, then use it a little so that a broken construction shows
 fn poke(mut c: RawLRU<u64, u64>, n: u64) -> String {
+    ORDER.with(|o| *o.borrow_mut() = (c.keys().copied().collect(), c.cap() as i64));
     let _ = c.len() + c.cap();
     for (k, v) in items(n) {
         let _ = c.peek(&k).map(|x| *x == v);
@@ -167,6 +169,7 @@ pub fn run(a: &crate::Args) -> Value {
     for line in input.lines() {
         let line = line.unwrap();
         let Some(c) = tlc_payload(&line, "CTOR") else { continue };
+        ORDER.with(|o| *o.borrow_mut() = (vec![], -1));
         let outcome = match catch_unwind(AssertUnwindSafe(|| run_one(&c))) {
             Ok(o) => o,
             Err(e) => {
@@ -181,7 +184,8 @@ pub fn run(a: &crate::Args) -> Value {
         };
         *by.entry(outcome.clone()).or_insert(0) += 1;
         n += 1;
-        writeln!(out, "{}", json!({"call": c, "outcome": outcome})).unwrap();
+        let (order, cap) = ORDER.with(|o| o.borrow().clone());
+        writeln!(out, "{}", json!({"call": c, "outcome": outcome, "order": order, "cap": cap})).unwrap();
     }
     out.flush().unwrap();
     json!({"events": n, "tests": n, "panics": panics, "nontrivial": n, "by_kind": by})
